@@ -25,6 +25,7 @@ type c09Case struct {
 	payload []bool // per case
 	arms    []c09Arm
 	deflt   bool
+	dup     bool // some arm is written more than once (never together with a complete cover)
 	ctx     int // nesting context
 	// a second match on the SAME union inside the same top-level definition
 	second *c09Case
@@ -65,6 +66,9 @@ func (c c09Case) key() string {
 		b.WriteString(":D")
 	}
 	fmt.Fprintf(&b, ":ctx%d", c.ctx)
+	if c.dup {
+		b.WriteString(":dup")
+	}
 	if c.second != nil {
 		fmt.Fprintf(&b, ":shape%d:[%s]", c.shape, c.second.key())
 	}
@@ -293,6 +297,26 @@ func c09Enumerate(tier string, rng *core.Rand) []c09Case {
 		c.ctx = 1 + k%(numCtx-1)
 		out = append(out, c)
 	}
+	// duplicated arms: an incomplete duplicate-free sequence padded with repetitions of its own arms
+	// until there are at least as many arms as cases (counting arms is not covering cases)
+	nDup := 600
+	if tier == "thorough" {
+		nDup = 8000
+	}
+	for k := 0; k < nDup; k++ {
+		c := out[rng.Intn(base)]
+		if c.deflt || c.n < 2 || len(c.uncovered()) == 0 {
+			continue
+		}
+		arms := append([]c09Arm{}, c.arms...)
+		for len(arms) < c.n+rng.Intn(2) {
+			arms = append(arms, c.arms[rng.Intn(len(c.arms))])
+		}
+		core.Shuffle(rng, arms)
+		c.arms = arms
+		c.dup = true
+		out = append(out, c)
+	}
 	// two matches on the same union inside one top-level definition, in four shapes: the
 	// verdict on one match must not depend on what another match on that union covered
 	nPairs := 3000
@@ -346,7 +370,7 @@ func runC09(r *core.Run, tier string) {
 		r.Inconclusive("fc does not build: " + err.Error())
 		return
 	}
-	r.Rule("a case is one file holding one match on a union value, transpiled by its own fc process: every union of 1..4 cases (thorough: 5) x every payload/no-payload mix x every non-empty duplicate-free arm sequence x every arm form (bind / `_` / no payload) x with/without default, plus a seeded sample placed in 9 nesting contexts (a union called G_int next to the instantiation G<int> of a generic union, an un-annotated lambda parameter as target, a target that is a call of a generic function, let right-hand side, if branch, inside another match arm, inside a lambda, in a piped partially applied function, after a match on another union whose arm binder carries the scrutinee's name); observed: exit status, diagnostic, presence of gen file; expected by set computation; a sample of accepted programs is compiled and run on one value per case; non-trivial = union with >= 2 cases; distinct by (union shape, arm sequence, forms, default, context)")
+	r.Rule("a case is one file holding one match on a union value, transpiled by its own fc process: every union of 1..4 cases (thorough: 5) x every payload/no-payload mix x every non-empty duplicate-free arm sequence x every arm form (bind / `_` / no payload) x with/without default, incomplete sequences padded with duplicated arms up to the number of cases, plus a seeded sample placed in 9 nesting contexts (a union called G_int next to the instantiation G<int> of a generic union, an un-annotated lambda parameter as target, a target that is a call of a generic function, let right-hand side, if branch, inside another match arm, inside a lambda, in a piped partially applied function, after a match on another union whose arm binder carries the scrutinee's name); observed: exit status, diagnostic, presence of gen file; expected by set computation; a sample of accepted programs is compiled and run on one value per case; non-trivial = union with >= 2 cases; distinct by (union shape, arm sequence, forms, default, context)")
 	r.Assume("the match target's union type is known when the match is parsed (annotated parameter or bound variable)", "arms never repeat a case (Go rejects duplicate type-switch cases)")
 	cases := c09Enumerate(tier, core.NewRand(r.SeedV, "c09"))
 	type obs struct {
